@@ -6,6 +6,10 @@ import Sif.Spec.C08
     msg <module> <handler> <signer> [<role> <addr> <canonical form of addr, or ->]       → ok | err
     chk c08.guard.<module>.<handler> tag=… <module> <handler> <signer> <ok|err> <changed> → true | false
     chk c08.removed tag=… <role> <spelling> <still>                                       → true | false
+    tx  <n> (<module> <handler> <signer> <role|-> <addr|-> <canon|->)*n                   → ok | err   (all-or-nothing)
+    sim <n> (…)*n                                                                         → ok | err   (never changes anything)
+    chk c08.stored.<module>.<handler> tag=… <module> <handler> <ok|err> <roles held per raw store|-> <oracle> <clp>
+    chk c08.txatomic tag=… <ok|err> <changed>
   Addresses are the spellings the messages carried (upper- or lower-case bech32); the role table is
   keyed by the raw string, signers are compared through their canonical (lower-case) form.
 -/
@@ -20,6 +24,15 @@ def parseOutcome : String → Option Outcome
 def showOutcome : Outcome → String
   | .ok => "ok"
   | .err => "err"
+
+/-- `n` message descriptors of six tokens each: module handler signer role addr canon (`-` = no payload) -/
+def parseTxMsgs : Nat → List String → Option (List TxMsg)
+  | 0, [] => some []
+  | n+1, m :: h :: s :: r :: a :: c :: rest => do
+    let ms ← parseTxMsgs n rest
+    let payload := if r == "-" then none else some ⟨r, a, if c == "-" then none else some c⟩
+    some (⟨m, h, canonAddr s, payload⟩ :: ms)
+  | _, _ => none
 
 /-- returns (new state, answer) -/
 def handleAuth (st : AuthState) : List String → AuthState × String
@@ -39,6 +52,26 @@ def handleAuth (st : AuthState) : List String → AuthState × String
       match parseOutcome res, parseBool changed with
       | some r, some c => (st, toString (refusedUnchanged st (specHandler module name) (canonAddr signer) r c))
       | _, _ => (st, "bad-op")
+    else (st, "bad-op")
+  | "tx" :: n :: rest =>
+    match n.toNat? >>= fun k => parseTxMsgs k rest with
+    | some ms => let (st', o) := stepTx specHandler st ms; (st', showOutcome o)
+    | none => (st, "bad-op")
+  | "sim" :: n :: rest =>
+    match n.toNat? >>= fun k => parseTxMsgs k rest with
+    | some ms => let (st', o) := stepSim specHandler st ms; (st', showOutcome o)
+    | none => (st, "bad-op")
+  | ["chk", "c08.txatomic", _tag, res, changed] =>
+    match parseOutcome res, parseBool changed with
+    | some r, some c => (st, toString (errUnchanged r c))
+    | _, _ => (st, "bad-op")
+  | ["chk", pred, _tag, module, name, res, roles, oracle, clp] =>
+    if pred.startsWith "c08.stored" then
+      match parseOutcome res, parseBool oracle, parseBool clp with
+      | some r, some o, some c =>
+        let rs := if roles == "-" then [] else roles.splitOn ","
+        (st, toString (storedOK (specHandler module name) rs o c r))
+      | _, _, _ => (st, "bad-op")
     else (st, "bad-op")
   | ["chk", "c08.removed", _tag, _role, _spelling, still] =>
     match parseBool still with
